@@ -259,7 +259,7 @@ def _run_subprocess(c, d, faults):
     code = _CHILD % {"verif": os.path.dirname(os.path.dirname(os.path.dirname(os.path.abspath(__file__)))),
                      "case": json.dumps(case_to_json(c)), "faults": json.dumps({str(k): list(v) for k, v in faults.items()}),
                      "d": d, "target": os.path.join(d, "t")}
-    env = dict(os.environ, PYTHONPATH="/repo/src")
+    env = dict(os.environ, PYTHONPATH=os.environ.get("VERIF_REPO", "/repo") + "/src")
     r = subprocess.run([sys.executable, "-c", code], capture_output=True, text=True, timeout=120, env=env)
     lines = [ln for ln in r.stdout.splitlines() if ln.startswith("{")]
     rep = json.loads(lines[-1]) if lines else {"ops": []}
